@@ -122,7 +122,8 @@ def run_check(prop, tier, seed, replay=None):
                 'checker_cmd': 'cd lean && lake build EpsModel.Props.%s && lake env lean <#print axioms of every theorem>' % prop,
                 'trusted_base': TRUSTED_BASE + spec.trusted_extra,
                 'theorems': {k: v for k, v in theorems.items()},
-                'disagreements_checked': len(disagreements),
+                'disagreements_checked': cov.get('traces_validated_against_impl', 0),
+                'disagreements_found': len(disagreements),
                 'oracle_failures': len(failures),
                 'known_findings_seen': known_lines})
     write_evidence(prop, tier, seed, cov, time.time() - t0, len(violations), spec.assumptions)
